@@ -268,6 +268,8 @@ def run_C03(ctx):
     progs = [G.gen_worklist_program(rng, prof) for _ in range(ctx.n(80))]
     stateful(ctx, res, "distribute-aliased-failing", progs, ["replay_safe"])
     progs = [gen_evo_program(rng, p_fail=0.6, fail_kinds=["toolarge", "toolarge", "limit", "order", "grid", "lc"]) for _ in range(ctx.n(150))]
+    # ... and with a max_volume that is not a short binary fraction (600.3, 99.9): per-tip volumes at its neighbours
+    progs += [gen_evo_program(rng, p_fail=0.7, fail_kinds=["toolarge"], nondyadic_max=[F(600.3), F(99.9), F(950.3), F(200.1), F(333.3)] * 3) for _ in range(ctx.n(40))]
     stateful(ctx, res, "evo-failing", progs, ["evo_step"])
     return res
 
@@ -293,7 +295,37 @@ def run_C05(ctx):
     prof = {"p_fail": 0.05, "nops": (2, 10), "kinds": ["transfer"] * 6 + ["distribute", "distribute", "dispense", "aspirate", "drain_refill", "drain_refill"], "p_trough": 0.4}
     progs = corpus_progs(ctx) + [G.gen_worklist_program(rng, prof) for _ in range(ctx.n(220))]
     stateful(ctx, res, "composition", progs, ["mixing"])
+    # equilibration: liquid goes back and forth between two (or around three) wells until their compositions agree to
+    # many digits — the incoming liquid then has the same components as the well and NEARLY the same fractions; the
+    # mixture is still the volume-weighted one, and component totals are still conserved
+    progs = [equilibration_program(rng) for _ in range(ctx.n(12))]
+    stateful(ctx, res, "equilibration", progs, ["mixing"])
     return res
+
+
+def equilibration_program(rng):
+    dev = rng.choice(["evo", "fluent"])
+    same = rng.random() < 0.5
+    nw = rng.choice([2, 2, 3])
+    V = F(rng.choice([600, 400, 900, 120]))
+    mx = 4 * V
+    if same:
+        labs = [{"kind": "plate", "name": "eq", "rows": nw, "cols": 1, "min": F(0), "max": mx, "init": ("V", [V] * nw), "names": {}}]
+        where = [(0, G.wid(r, 0)) for r in range(nw)]
+    else:
+        labs = [{"kind": "plate", "name": f"eq{k}", "rows": 1, "cols": 1, "min": F(0), "max": mx, "init": ("V", [V]),
+                 "names": {"A01": f"liquid {k}"} if rng.random() < 0.5 else {}} for k in range(nw)]
+        where = [(k, "A01") for k in range(nw)]
+    frac = rng.choice([F(1, 2), F(1, 3), F(1, 4), F(3, 4)])
+    ops = []
+    rounds = rng.randint(16, 30)
+    for r in range(rounds):
+        a, b = where[r % nw], where[(r + 1) % nw]
+        v = F(math.floor(V * frac * 8), 8)
+        for (s, d) in ((a, b), (b, a)):
+            ops.append({"op": "transfer", "src": s[0], "dst": d[0], "label": None, "wash": rng.choice([1, "reuse", "flush"]),
+                        "partition_by": "auto", "kw": {}, "src_wells": ("V", [s[1]]), "dst_wells": ("V", [d[1]]), "vols": ("V", [v])})
+    return {"cfg": {"dev": dev, "max_volume": F(950), "auto_split": True, "diti_mode": False}, "labs": labs, "ops": ops, "exact": True}
 
 
 def run_C06(ctx):
@@ -363,6 +395,23 @@ def run_C16(ctx):
         msg = base_refuses(pb, rb)
         if msg:
             res.viol.append(Finding("devices", dict(case, prog=pb), msg, "C16:base-guesses"))
+    # twin-only stream (no model): a max_volume that is not a short binary fraction (950.3, 99.9 ...) with volumes at
+    # its single-/half-precision neighbours, handed over in narrow numpy types — whatever the arithmetic noise of the
+    # split steps, the two devices must agree with each other
+    nd = [F(950.3), F(950.2), F(200.1), F(99.9), F(333.3), F(50.05)]
+    prof3 = {"p_fail": 0.15, "nops": (1, 3), "kinds": ["transfer"], "fail_kinds": ["transfer"], "max_volumes": nd, "p_trough": 0.3, "p_near_equal": 0.0, "p_narrow_vols": 0.7}
+    for _ in range(ctx.n(60)):
+        p = G.gen_worklist_program(rng, prof3)
+        pe = copy.deepcopy(p); pe["cfg"] = dict(pe["cfg"], dev="evo")
+        pf = copy.deepcopy(p); pf["cfg"] = dict(pf["cfg"], dev="fluent")
+        re_, rf = impl.run_program(pe), impl.run_program(pf)
+        res.programs += 2
+        res.evaluations += len(re_.obs) + len(rf.obs)
+        res.dist["twin-only: non-dyadic max_volume"] += 1
+        case = {"kind": "stateful", "stream": "devices-twin-only", "prog": pe, "oracles": [], "stop_on_error": True, "strict_value": False, "twin": "fluent", "model": False}
+        msg = compare_devices(pe, re_, rf)
+        if msg:
+            res.viol.append(Finding("devices-twin-only", case, msg, "C16:evo-fluent-differ"))
     return res
 
 
@@ -426,8 +475,8 @@ def base_refuses(prog, rb):
 
 
 # ------------------------------------------------------------------ EVO programs (C13, C10, C02)
-def gen_evo_program(rng, p_fail=0.3, fail_kinds=None):
-    b = G.Builder(rng, {"devices": ["evo"], "nlabs": [1, 2], "max_volumes": [F(950), F(200), F(100), F(50), F(25, 2), F(300)]})
+def gen_evo_program(rng, p_fail=0.3, fail_kinds=None, nondyadic_max=None):
+    b = G.Builder(rng, {"devices": ["evo"], "nlabs": [1, 2], "max_volumes": [F(950), F(200), F(100), F(50), F(25, 2), F(300)] + (nondyadic_max or [])})
     b.cfg["dev"] = "evo"
     b.wl = impl.make_wl(b.cfg)
     nops = rng.randint(1, 5)
@@ -436,7 +485,22 @@ def gen_evo_program(rng, p_fail=0.3, fail_kinds=None):
         op = evo_op(b, rng, fail, fail_kinds)
         if not b.push(op):
             break
+        if op.get("tips") and op["op"] in ("evo_aspirate", "evo_dispense") and rng.random() < 0.35:
+            # the same call once more with the tips RESPELLED so that the lists compare equal element by element while
+            # meaning other tips: the int 4 is tip number 4, `Tip.T3` has the value 4 (IntEnum) and is tip number 3
+            t2 = respell_tips(op["tips"])
+            if t2 is not None:
+                op2 = copy.deepcopy(op); op2["tips"] = t2
+                if not b.push(op2):
+                    break
     return b.program()
+
+
+def respell_tips(tips):
+    m = {("int", n): ("member", n) for n in (1, 2, 4, 8)}
+    m.update({("member", n): ("int", n) for n in (1, 2, 4, 8)})
+    out = [m.get(tuple(t), tuple(t)) for t in tips]
+    return out if out != [tuple(t) for t in tips] else None
 
 
 def evo_op(b, rng, fail, fail_kinds=None):
@@ -464,6 +528,8 @@ def evo_op(b, rng, fail, fail_kinds=None):
         room = (cur - F(L.min_volume)) if kind == "evo_aspirate" else (F(L.max_volume) - cur)
         room = max(F(0), min(room, M))
         room = b.adj(room)
+        if F(M).denominator > 2**20:
+            room = F(math.floor(room * 8), 8)      # volumes stay short binary fractions (exact in floating point)
         v = rng.choice([F(0), room, G.grid(rng, 0, room), G.grid(rng, 0, room / max(1, k))])
         v = min(v, room)
         vols.append(v)
@@ -539,6 +605,18 @@ def evo_op(b, rng, fail, fail_kinds=None):
             if room > big and rng.random() < 0.7:
                 big = G.grid(rng, big, room) if rng.random() < 0.5 else big
             op["vol"] = [big] + [F(0)] * (k - 1)
+            if F(M).denominator > 2**20:
+                # max_volume is not a short binary fraction (600.3): its half/single precision neighbour above it,
+                # handed over as a numpy scalar of that width, is still too large
+                import numpy as np
+                dtn = rng.choice(["float16", "float32"])
+                nb = F(float(getattr(np, dtn)(float(M))))
+                if nb > M:
+                    op["vol"] = [nb] + [F(0)] * (k - 1)
+                    op["vol_dtype"] = dtn
+                else:
+                    # (every volume stays a short binary fraction: the tracking of a refused EVO command keeps it)
+                    op["vol"] = [F(math.ceil(M * 8), 8) + rng.choice([F(0), F(1, 8), F(1)])] + [F(0)] * (k - 1)
         elif f == "limit":
             idx = L.indices[wells[0]]
             cur = F(float(L.volumes[idx]))
@@ -1010,9 +1088,11 @@ def run_C10(ctx):
                 rng.shuffle(l)
             args.append(("many", l))
     cases = []
-    for a in args:
-        def call(a=a):
-            out = prep("L", 1, 10.0, "", impl.tiparg(a), "", "", "", "")[4]
+    # every collection is handed over as a list and as a tuple (any iterable is legal; a tuple is hashable, and
+    # `Tip.T3 == 4` although the int 4 means tip number 4: equal-looking tuples are different selections)
+    for a, cont in [(a, c) for a in args for c in (("list", "tuple") if a[0] == "many" else (None,))]:
+        def call(a=a, cont=cont):
+            out = prep("L", 1, 10.0, "", impl.tiparg(a, cont), "", "", "", "")[4]
             return "ok ~" if out == "" else f"ok {int(out)}"
         ans = guarded(call)
         elems = [a[1]] if a[0] == "single" else a[1]
@@ -1026,8 +1106,8 @@ def run_C10(ctx):
             want = f"ok {m}"
         else:
             want = "err:valueErr"
-        msg = None if ans == want else f"tip={impl.tiparg(a)!r}: emitted {ans}, expected {want}"
-        cases.append({"line": "tipmask " + proto.e_tiparg(a), "impl": ans, "case": {"kind": "fn", "fn": "tipmask", "tip": a},
+        msg = None if ans == want else f"tip={impl.tiparg(a, cont)!r}: emitted {ans}, expected {want}"
+        cases.append({"line": "tipmask " + proto.e_tiparg(a), "impl": ans, "case": {"kind": "fn", "fn": "tipmask", "tip": a, "container": cont},
                       "oracle": msg, "sig": "C10:tipmask", "nontrivial": a[0] == "many"})
     fn_stream(ctx, res, "tipmask", cases)
     # EVO script commands and record pairs
@@ -1883,6 +1963,15 @@ def gen_record_program(rng):
         else:
             op = {"op": "set_diti", "index": rng.randint(0, 9)}
         ops.append(op)
+        tp = op.get("kw", {}).get("tip") if op.get("op") in ("aspirate_well", "dispense_well") else None
+        if tp is not None and not fault and rng.random() < 0.5:
+            # the same record once more with the tips respelled (int 4 <-> Tip member of value 4): equal-looking, other tips
+            syms = [tp[1]] if tp[0] == "single" else list(tp[1])
+            t2 = respell_tips(syms)
+            if t2 is not None:
+                op2 = copy.deepcopy(op)
+                op2["kw"]["tip"] = ("single", t2[0]) if tp[0] == "single" else ("many", t2)
+                ops.append(op2)
     return {"cfg": cfg, "labs": [], "ops": ops, "exact": True}
 
 
@@ -2033,7 +2122,9 @@ class EvoStepOracle(O.Oracle):
                 if exc is not None:
                     self.fail(f"C03:rejected-call-left-command:{op['op']}", f"op {i} raised {exc!r} but appended {r!r}", i)
                 for sv in m.group(3).rstrip(",").split(","):
-                    if sv != "0" and F(sv.strip('"')) > M:
+                    # the command carries the two-decimal rendering of the volume: "200.1" for a max_volume given as the
+                    # float 200.1 (a hair below 2001/10) is that very volume, not a step above it
+                    if sv != "0" and F(sv.strip('"')) - M > F(1, 200):
                         self.fail(f"C03:step-above-max-volume:{op['op']}", f"op {i}: {r!r} carries {sv} > max_volume {M}", i)
 
 
